@@ -20,6 +20,7 @@ import (
 	"sort"
 	"strings"
 	"sync"
+	"syscall"
 	"testing"
 
 	"github.com/rogpeppe/go-internal/testscript"
@@ -175,20 +176,37 @@ func markerLines(tree []string) []int {
 	return out
 }
 
-func stripModes(tree []string) []string {
+// projTree brings a tree snapshot into the form the evaluator predicts: files with mode and
+// content, directories with mode, links by name; entries named zz_* (the epilogue's dumps
+// of stdin, environment and directory, whose content the evaluator does not predict) are
+// left to the comparison with the model.
+func projTree(tree []string) []string {
 	var out []string
 	for _, e := range tree {
 		f := strings.Split(e, "|")
+		if strings.HasPrefix(f[0], "zz_") {
+			continue
+		}
 		switch f[1] {
 		case "f":
-			out = append(out, f[0]+"|f|"+f[3])
+			out = append(out, f[0]+"|f|"+f[2]+"|"+f[3])
 		case "d":
-			out = append(out, f[0]+"|d")
+			out = append(out, f[0]+"|d|"+f[2])
 		default:
 			out = append(out, f[0]+"|l")
 		}
 	}
 	sort.Strings(out)
+	return out
+}
+
+func dropZZ(tree []string) []string {
+	var out []string
+	for _, e := range tree {
+		if !strings.HasPrefix(e, "zz_") {
+			out = append(out, e)
+		}
+	}
 	return out
 }
 
@@ -224,7 +242,7 @@ func oracleDiff(c *Case, o *Obs, ex *Expect) string {
 	if !eqInts(markerLines(o.Tree), markerLines(ex.Tree)) {
 		return "marker-files"
 	}
-	if !eqStrs(stripModes(o.Tree), ex.Tree) {
+	if !eqStrs(projTree(o.Tree), dropZZ(ex.Tree)) {
 		return "final-tree"
 	}
 	return ""
@@ -358,6 +376,14 @@ func (rn *runner) judge(oc *outcome) {
 	}
 	if c.Kind == "wild" {
 		res.Count(fmt.Sprintf("wild:lines-failing=%d-of-%d0%%", 0, 0)[:0] + fmt.Sprintf("wild:share-of-lines-failing:%d0%%", min(9, 10*len(o.FailLines)/max(1, len(c.Lines)))))
+	}
+	for _, e := range o.Tree {
+		if strings.HasPrefix(e, "zz_cd|") {
+			res.Count("epilogue:reached (final stdin, environment and directory compared through the tree)")
+		}
+	}
+	if c.Uniq && o.Verdict == "fail" && firstOr(o.FailLines, -1) == 0 {
+		res.Count("params:RequireUniqueNames-setup-failure")
 	}
 	if m.Racy {
 		res.Count("model:racy-not-compared")
@@ -506,6 +532,7 @@ func realMain() int {
 	// A process started with SIGINT ignored (a background job of a non-interactive shell,
 	// nohup) hands that disposition to its children, and the sleepers that scripts interrupt
 	// would then sleep on.  Installing a handler makes the children start with the default.
+	syscall.Umask(0o022) // the model's umask
 	sigc := make(chan os.Signal, 1)
 	signal.Notify(sigc, os.Interrupt)
 	go func() {
@@ -589,6 +616,38 @@ func realMain() int {
 		hi := min(lo+500, len(cases))
 		rn.runAll(cases[lo:hi], pls[lo:hi])
 	}
+	// 2b. Params.TestWork (without WorkdirRoot): same verdict, and the work directory is left
+	// behind exactly when it is set
+	tw := r.Fork()
+	for i := 0; i < nBatch/2; i++ {
+		c, _ := genConstructive(tw.Fork(), fmt.Sprintf("t%04d", i), false)
+		c.NoRoot, c.TestWork = true, i%2 == 0
+		ex := evaluate(c)
+		dir := rn.freshDir(c.ID)
+		o := runImpl(c, dir)
+		cleanup(dir)
+		res.Count(fmt.Sprintf("testwork:%v-left:%v", c.TestWork, o.WorkLeft))
+		res.Case("testwork|"+string(c.fileBytes()), true)
+		bad := ""
+		switch {
+		case o.WorkLeft != c.TestWork:
+			bad = "testwork-directory"
+		case ex.Known && (o.Verdict != ex.Verdict || ex.Verdict == "fail" && firstOr(o.FailLines, -1) != ex.FailLine):
+			bad = "testwork-verdict"
+		}
+		if bad != "" {
+			res.Violate(common.Violation{Kind: "impl-violation", Oracle: bad, Input: rn.input(c), Key: bad + ":" + strings.Join(c.Lines, ";"),
+				Impl:   fmt.Sprintf("verdict=%s FAIL-lines=%v work directory left=%v (Params.TestWork=%v, no WorkdirRoot)", o.Verdict, o.FailLines, o.WorkLeft, c.TestWork),
+				Model:  fmt.Sprintf("independent evaluation: verdict=%s first-failing-line=%d; the work directory stays exactly when TestWork is set", ex.Verdict, ex.FailLine),
+				Detail: tail(o.Log, 600)})
+		}
+	}
+	// 2c. the regular-expression fragment of the model against Go's regexp
+	nRe := 30000
+	if f.Tier == "thorough" {
+		nRe = 600000
+	}
+	rn.regexMain(r.Fork(), nRe)
 	// 3. the built cmd/testscript binary
 	rn.cliMain(r.Fork(), nBatch)
 	res.Rule = fmt.Sprintf("corpus (%d), %d constructive scripts of 1-25 lines built with the independent evaluator (planted failing line in ~60%%, stop/skip in ~25%%, all Params), %d wild scripts over the whole vocabulary (model comparison only), %d batches through the built cmd/testscript binary; a case is non-trivial when it has >= 2 lines or does not pass; distinct = distinct (script, verdict, failing lines)", len(corpus), nCons, nWild, nBatch)
